@@ -197,6 +197,15 @@ def proof_side(pid, spec, tier, log):
         obligations.append("tie:int-hazards(%d anchored files)" % len(files))
     except Exception as e:  # noqa: BLE001
         failed.append(("tie:int-hazards", "inventory failed: %r" % (e,)))
+    # state / effect / trait-impl inventory: the closed-world assumptions of the models (tools/src_inventory.py)
+    try:
+        import src_inventory
+        files = anchor_files(pid)
+        for d in src_inventory.diff(files):
+            failed.append(("tie:src-inventory", d))
+        obligations.append("tie:src-inventory(%d anchored files)" % len(files))
+    except Exception as e:  # noqa: BLE001
+        failed.append(("tie:src-inventory", "inventory failed: %r" % (e,)))
     if tier == "thorough":
         # from-scratch rebuild of everything this property depends on
         run(["rm", "-rf", os.path.join(LEAN, ".lake", "build")])
@@ -634,8 +643,9 @@ def main(argv):
         failed_names.add(n)
     if any(n.startswith(("proof:", "model:", "tie:extract", "forbidden")) for n in failed_names):
         discharged = 0
-    elif "tie:int-hazards" in failed_names:
-        discharged = n_obl - 1 - len([n for n in failed_names if n.split(":", 1)[-1] in ps["obligations"]])
+    elif "tie:int-hazards" in failed_names or "tie:src-inventory" in failed_names:
+        discharged = n_obl - len(failed_names & {"tie:int-hazards", "tie:src-inventory"}) \
+            - len([n for n in failed_names if n.split(":", 1)[-1] in ps["obligations"]])
     else:
         discharged = n_obl - len([n for n in failed_names if n.split(":", 1)[-1] in ps["obligations"]])
     ev = dict(
